@@ -102,7 +102,7 @@ func checkC13() *checkDef {
 }
 
 func allChecks() []*checkDef {
-	return []*checkDef{checkC01(), checkC03(), checkC04(), checkC06(), checkC07(), checkC12(), checkC13(), checkC14(), checkC15(), checkC19()}
+	return []*checkDef{checkC01(), checkC03(), checkC04(), checkC06(), checkC07(), checkC08(), checkC09(), checkC12(), checkC13(), checkC14(), checkC15(), checkC19()}
 }
 
 func freshRuns(tier string) []run {
@@ -185,6 +185,41 @@ func checkC07() *checkDef {
 				{Pkg: "./proxy/headers", Scenario: "headers/range", Params: map[string]any{"max_len": ml, "sizes": []int{0, 1, 2, 10, 36}}},
 				{Pkg: "./proxy", Scenario: "proxy/range", Params: map[string]any{"backend": "memory"}},
 			}
+		},
+	}
+}
+
+func checkC08() *checkDef {
+	return &checkDef{
+		ID: "C08", Title: "Relayed traffic is faithful in both directions", Level: "exploration",
+		Category: "exploration",
+		LevelText: "Bounded-exhaustive feature enumeration through the real http.Server + proxy over in-memory connections and (tunnel harness) the real CONNECT/TLS path: a base GET with every single feature and every compatible pair of ~50 features (7 methods; 9 target shapes incl. %2F, %20, ';', empty query, '//' and dot segments; 11 request header shapes incl. multi-valued, Connection-nominated and all hop-by-hop fields; 3 request bodies incl. chunked and 70 kB; 5 statuses; 8 response header shapes incl. Set-Cookie x3, Link x2, Vary x2; validators absent; 3 response bodies incl. chunked and 70 kB), each judged relayed and, when cacheable, again from the store: method, target as sent, body and end-to-end header multimap (values in order) equal in both directions; hop-by-hop and Connection-nominated fields absent.",
+		LevelNote: "Trusted: in-process origin records the request handed to the transport (header names canonicalised by net/http on both sides), the list of proxy-owned response fields excluded from comparison (Via, Age, X-Cache, Cache-Status, Accept-Ranges, Date, framing, Last-Modified, ETag when the origin sent none). Clients always send User-Agent and Accept-Encoding.",
+		Technique: "bounded-exhaustive enumeration (all singles and pairs of request/response features) on the real server stack against a field-by-field fidelity oracle",
+		DesignRef: "DESIGN.md section 4 C08",
+		Rule:        "base exchange + every single feature + every compatible pair, on plain and CONNECT transport; distinct by feature set; non-trivial = distinct feature set",
+		Assumptions: seqAssumptions,
+		Runs: func(tier string) []run {
+			return []run{
+				{Pkg: "./proxy", Scenario: "proxy/relay", Params: map[string]any{"backend": "memory"}},
+				{Pkg: "./proxy", Scenario: "proxy/relay", Params: map[string]any{"backend": "file"}},
+			}
+		},
+	}
+}
+
+func checkC09() *checkDef {
+	return &checkDef{
+		ID: "C09", Title: "Cache-side trouble never turns a good origin answer into an error", Level: "fault_enumeration",
+		Category: "fault_enumeration",
+		LevelText: "Fault-point enumeration on the real proxy + cache: for seven request histories (store, hit, expire+304, expire+200, range, empty body, 1-byte body) on both backends, the history is run once to log every file-system call, then re-run with each logged call failing in turn, with the write failing after every byte count, with the cache directory removed, with the cache full (1 and 32 shards) and with a zero memory budget; plus all schedules (K preemptions) of an eviction/deletion/janitor cycle placed at every point of a hit, a 304 revalidation and a coalesced hand-over. Oracle: whenever every origin answer was 2xx/304 the client receives the origin's status and complete current body: never a 5xx, a truncated body or no response.",
+		LevelNote: "Trusted: the vos seam (every os.* call of the cache goes through it), in-process origin. Faults are single (one deviation per run). Disk-full semantics beyond injected errors are not modelled.",
+		Technique: "exhaustive single-fault enumeration over the logged environment calls of each history (every failing FS call, every write-failure offset) + preemption-bounded schedule enumeration of eviction placements",
+		DesignRef: "DESIGN.md section 4 C09",
+		Rule:        "each (backend, history, fault point) triple; distinct by triple; non-trivial = distinct status pattern per fault class",
+		Assumptions: seqAssumptions,
+		Runs: func(tier string) []run {
+			return []run{{Pkg: "./proxy", Scenario: "proxy/fault", Params: map[string]any{}}}
 		},
 	}
 }
